@@ -205,6 +205,13 @@ def build_ocaml(pid, extract_v=None, driver_dir=None, timeout=1200):
     with Lock("ocaml-" + low):
         if os.path.exists(exe) and os.path.exists(stamp) and open(stamp).read() == h:
             return 0, "cached", exe
+        # make sure every ZV.* module the extraction file imports is compiled and current
+        deps = re.findall(r"\bZV\.([A-Za-z0-9_.]+)", re.sub(r"\(\*.*?\*\)", "", open(extract_v).read(), flags=re.S))
+        targets = sorted(set(d.rstrip(".").replace(".", "/") + ".vo" for d in deps))
+        if targets:
+            rc, out = coq_make(targets)
+            if rc != 0:
+                return rc, out, exe
         with Lock("coq"):
             rc, out = sh(["coqc", "-Q", COQ, "ZV", extract_v], cwd=outdir, timeout=timeout)
         if rc != 0:
